@@ -2,7 +2,13 @@
 
 package http2
 
-import "errors"
+import (
+	"errors"
+	"sync/atomic"
+	"time"
+
+	"github.com/valyala/fasthttp"
+)
 
 // Exported shims for the verification harness (/verif). Built only with
 // -tags verif; nothing here changes the behaviour of the package.
@@ -209,3 +215,67 @@ func (st *Settings) VerifHasWindowSize() bool { return st.hasWindowSize }
 
 // VerifErrFrameType returns the frame type an Error asks to be answered with.
 func VerifErrFrameType(e Error) FrameType { return e.frameType }
+
+// ---- client connection (conn.go, client.go) ----
+
+// VerifAcquireCtx is acquireCtx, the first thing roundTripOnce does.
+func VerifAcquireCtx(req *fasthttp.Request, res *fasthttp.Response) *Ctx {
+	return acquireCtx(req, res)
+}
+
+// VerifReleaseCtx is releaseCtx.
+func VerifReleaseCtx(ctx *Ctx) { releaseCtx(ctx) }
+
+// VerifArm arms the cancel timer the way roundTripOnce does.
+func (ctx *Ctx) VerifArm(d time.Duration) {
+	ctx.armed = true
+	ctx.timer.Reset(d)
+}
+
+// VerifFireNow makes an armed cancel timer run out now. fireTimeout runs on the
+// timer's own goroutine, as it does when MaxResponseTime is up.
+func (ctx *Ctx) VerifFireNow() { ctx.timer.Reset(1) }
+
+// VerifReusable is reusable.
+func (ctx *Ctx) VerifReusable() bool { return ctx.reusable() }
+
+// VerifTakeBack is takeBack.
+func (ctx *Ctx) VerifTakeBack() { ctx.takeBack() }
+
+// VerifStreamID returns the stream the request went out on (0: none yet).
+func (ctx *Ctx) VerifStreamID() uint32 { return atomic.LoadUint32(&ctx.streamID) }
+
+// VerifRetryable is retryable.
+func VerifRetryable(err error) bool { return retryable(err) }
+
+// VerifClientGauges returns the connection's bookkeeping, each value read the
+// way the package itself reads it (atomics, or under the lock that guards it).
+func (c *Conn) VerifClientGauges() (openStreams int32, nextID uint32, queued, pending int, connWindow, streamWindow int32, maxStreams, maxFrame, goAway uint32) {
+	openStreams = atomic.LoadInt32(&c.openStreams)
+	nextID = atomic.LoadUint32(&c.nextID)
+
+	c.reqLck.Lock()
+	queued = len(c.reqQueued)
+	c.reqLck.Unlock()
+
+	c.sendLck.Lock()
+	pending = len(c.pending)
+	connWindow = c.connWindow
+	streamWindow = c.streamWindow
+	c.sendLck.Unlock()
+
+	maxStreams = atomic.LoadUint32(&c.maxStreams)
+	maxFrame = atomic.LoadUint32(&c.maxFrameSize)
+	goAway = atomic.LoadUint32(&c.goAway)
+
+	return
+}
+
+// VerifSetNextID sets the next stream id (to reach the end of the id space).
+func (c *Conn) VerifSetNextID(id uint32) { atomic.StoreUint32(&c.nextID, id) }
+
+// VerifIsWriteError reports whether err is (or wraps) a WriteError.
+func VerifIsWriteError(err error) bool {
+	var we WriteError
+	return errors.As(err, &we)
+}
